@@ -342,7 +342,7 @@ Section Validator.
       end.
 
     Definition verify_dnskey_rrset (k : rrkey) (recs sigs : list rr) : verdict :=
-      let p0 := map (fun r => (r, if in_anchors (key_pk r) then Secure else Bogus)) recs in
+      let p0 := map (fun r => (r, if is_key r && in_anchors (key_pk r) then Secure else Bogus)) recs in
       let need_ds := negb (forallb (fun v => is_secure (snd v)) p0) && negb (is_root (fst k)) in
       match (if need_ds then fetch_ds_records (fst k) else DsOk []) with
       | DsPanic => PPanic
@@ -357,8 +357,10 @@ Section Validator.
             match sig_loop k recs p1 0 sigs with
             | Some i => PV Secure (Some i)
             | None =>
+                (* `!dnskey_proofs.is_empty() && all(is_secure)` (before /repo fed49c5 the empty set
+                   passed the test and `pop().unwrap()` panicked) *)
                 if forallb (fun v => is_secure (snd v)) p1 then
-                  match p1 with [] => PPanic | _ => PV Secure None end
+                  match p1 with [] => PV Bogus None | _ => PV Secure None end
                 else PV Bogus None
             end
       end.
@@ -518,6 +520,102 @@ Section Validator.
      backstop permits *)
   Definition validate (q : query) : vres := send (maxd + 2) 0 q.
 End Validator.
+
+(* ------------------------------------------------------------------ *)
+(* Spec: the chain of trust, stated independently of the validator      *)
+(* ------------------------------------------------------------------ *)
+
+Section Spec.
+  Variable U : query -> ureply.
+  Variable anchors : list N.
+  Variable now : N.
+
+  Definition msg_of (rp : ureply) : option resp :=
+    match rp with UOk r => Some r | UNoRec rc au => Some (mkResp rc [] au) | UErr => None end.
+
+  (* a section of a message the upstream delivered for some query *)
+  Definition Delivered (sec : list rr) : Prop :=
+    exists q m, msg_of (U q) = Some m /\ (sec = ans m \/ sec = auth m).
+
+  (* RFC 4035 5.3.1 / 5.3.3: the signature record [s], made with the zone key [kr], authenticates
+     exactly the RRset [recs] filed under [k] at the current time *)
+  Inductive SigOk (k : rrkey) (recs : list rr) (kr s : rr) : Prop :=
+  | SigOk_intro kid pk alg tag tc labels ottl exp inc n :
+      rbody kr = BKey kid pk alg tag true false ->
+      rbody s = BSig tc alg labels ottl exp inc tag (owner kr)
+                     (SGen pk (mkTbs n tc labels ottl alg exp inc tag (owner kr) (sort_N (map rid recs)))) ->
+      labels <= nlabels (fst k) -> inc <= now -> now <= exp ->
+      tbs_name (fst k) labels = Some n -> recs <> [] ->
+      SigOk k recs kr s.
+
+  (* RFC 4035 5.2: the DS record [d] vouches for the zone key [kr] *)
+  Inductive DsVouches (d kr : rr) : Prop :=
+  | DsVouches_intro kid pk alg tag revoke dt :
+      rbody kr = BKey kid pk alg tag true revoke ->
+      rbody d = BDs tag alg dt (DGen (owner kr) kid) ->
+      dt_supported dt = true -> alg_supported alg = true ->
+      DsVouches d kr.
+
+  (* a record is authenticated: it is a trust anchor's key; or a key vouched for by an
+     authenticated DS record; or a member of an RRset (as delivered, whole) signed by an
+     authenticated key *)
+  Inductive Auth : rr -> Prop :=
+  | Auth_anchor kr : is_key kr = true -> In (key_pk kr) anchors -> Auth kr
+  | Auth_ds kr d : Auth d -> DsVouches d kr -> Auth kr
+  | Auth_sig r k sec s kr :
+      Delivered sec -> In r (recs_of k sec) -> In s (sigs_of k sec) ->
+      Auth kr -> SigOk k (recs_of k sec) kr s -> Auth r.
+End Spec.
+
+(* ------------------------------------------------------------------ *)
+(* Finite upstreams (used by the correspondence check and by the concrete witnesses)     *)
+(* ------------------------------------------------------------------ *)
+
+(* an upstream given by a finite table; anything else fails *)
+Fixpoint table_upstream (tbl : list (query * ureply)) (q : query) : ureply :=
+  match tbl with
+  | [] => UErr
+  | (q', r) :: tbl' => if query_eqb q q' then r else table_upstream tbl' q
+  end.
+
+Definition all_sections (tbl : list (query * ureply)) : list (list rr) :=
+  flat_map (fun e => match msg_of (snd e) with Some m => [ans m; auth m] | None => [] end) tbl.
+
+(* further spec notions used by the refuted / guarded theorems *)
+Section Spec2.
+  Variable U : query -> ureply.
+  Variable now : N.
+
+  (* the RRset of [r], whole as delivered in some section, is covered by a signature record
+     that verifies (with some key) at the current time *)
+  Definition SetSigned (r : rr) : Prop :=
+    exists sec k s kr, Delivered U sec /\ In r (recs_of k sec) /\ In s (sigs_of k sec) /\
+                       SigOk now k (recs_of k sec) kr s.
+
+  (* [r] was delivered together with a signature record of its RRset whose signer is the
+     owner of [r] or an ancestor of it (RFC 4035 5.3.1: the signer is the zone of the RRset) *)
+  Definition HomeSigned (r : rr) : Prop :=
+    exists sec s, Delivered U sec /\ In r sec /\ In s (sigs_of (key_of r) sec) /\
+                  zone_of (sig_signer s) (owner r) = true.
+
+  (* something in what the upstream delivered that could justify an Insecure verdict at all: a
+     denial-of-existence record or a DS record with an unsupported algorithm / digest type *)
+  Definition denial_material (x : rr) : bool :=
+    (rtype x =? T_NSEC) || (rtype x =? T_NSEC3) || (is_ds x && ds_unsupported x).
+  Definition DenialMaterial : Prop := exists sec x, Delivered U sec /\ In x sec /\ denial_material x = true.
+End Spec2.
+
+(* boolean versions for closed worlds *)
+Definition rr_eqb (a b : rr) : bool := name_eqb (owner a) (owner b) && (rid a =? rid b) && (rtype a =? rtype b).
+Definition set_signed_b (now : N) (k : rrkey) (recs : list rr) (s : rr) : bool :=
+  match rbody s with
+  | BSig tc alg labels ottl exp inc tag signer (SGen pk t') =>
+      match tbs_name (fst k) labels with
+      | Some n => tbs_eqb t' (mkTbs n tc labels ottl alg exp inc tag signer (sort_N (map rid recs)))
+      | None => false
+      end
+  | _ => false
+  end.
 
 (* ------------------------------------------------------------------ *)
 (* Server: DnssecSummary::from_records and the AD / SERVFAIL mapping    *)
